@@ -303,7 +303,7 @@ case("C03", "C03-m-noconfig", "mutant", "copy skips the config blob",
      expect=[("C03.R1", "imageCopyOpt", "GetConfig")])
 case("C03", "C03-m-earlyok", "mutant", "traversal returns success when the target manifest merely exists",
      edits=[("image.go", "\t// when copying/updating digest tags or referrers, only the source digest is needed for an image\n", "\tif mTgt != nil && child {\n\t\treturn nil\n\t}\n\t// when copying/updating digest tags or referrers, only the source digest is needed for an image\n")],
-     expect=[("C03.R2", "imageCopyOpt", "early success")])
+     expect=[("C03.R2", "imageCopyOpt", "success return")])
 case("C03", "C03-m-mt", "mutant", "export no longer treats schema1 as a manifest",
      edits=[("image.go", "\tcase mediatype.Docker1Manifest, mediatype.Docker1ManifestSigned, mediatype.Docker2Manifest, mediatype.OCI1Manifest:\n\t\t// Handle single platform manifests", "\tcase mediatype.Docker2Manifest, mediatype.OCI1Manifest:\n\t\t// Handle single platform manifests")],
      expect=[("C03.R5", "imageExportDescriptor", "media types")])
